@@ -128,7 +128,7 @@ def run(chk):
     chk.build_and_prove()
     t_build = time.time() - t_b0
     quick = chk.tier == "quick"
-    t_budget = (34 if quick else 480) * (3 if chk.broken and quick else 1)
+    t_budget = (40 if quick else 480) * (3 if chk.broken and quick else 1)
     t_start = time.time()
     diffs = R.structure_check()
     if diffs:
@@ -165,7 +165,7 @@ def run(chk):
             chk.violation(sig, {"case": case, "schedule": sched, "fine": fine, "what": msg,
                                 "implementation_log": [list(map(str, e)) for e in r.log]}, size=size(case, sched))
 
-    lim = 14 if quick else 300
+    lim = 10 if quick else 300
     ran_base = 0
     with E.rebound():
         for ci, b in enumerate(base):
